@@ -128,11 +128,11 @@ var plans = map[string]*Plan{
 	},
 	"C16": {
 		Level:     "exploration",
-		Scenarios: []ScenPlan{{"ids", 6000, 40000}},
+		Scenarios: []ScenPlan{{"ids", 6000, 40000}, {"sysxfer", 6000, 120000}, {"sysids", 4000, 60000}},
 		QuickWallS: 120, ThoroughWallS: 1500,
-		Rule:        "Scenario ids: the real RequestContextMiddleware, default/custom header names, features on/off, client-supplied values (empty, padded, long, unusual), 1-8 (thorough 8-64) concurrent tasks generating identifiers at one frozen virtual instant; pairwise distinctness, echo, handler-sees-what-client-gets.",
-		Real:        []string{"internal/logging middleware"}, Stub: []string{"inner handler", "ResponseWriter", "clock"}, Assumptions: commonAssumptions,
-		ExpectProbes: []string{"ids-generated"},
+		Rule:        "Scenario ids: the real RequestContextMiddleware, default/custom header names, features on/off, client-supplied values (empty, padded, long, unusual), 1-8 (thorough 8-64) concurrent tasks generating identifiers at one frozen virtual instant; pairwise distinctness, echo, handler-sees-what-client-gets. Scenario sysxfer: the same invariants on every exchange of the system-level transparency runs. Scenario sysids: every response path behind the real server (proxied, 401 custom-auth, 413 size_limit, 429 limiter, 503 no healthy backend / breaker open).",
+		Real:        sysReal, Stub: sysStub, Assumptions: commonAssumptions,
+		ExpectProbes: []string{"ids-generated", "path-429", "path-401", "path-413", "path-503"},
 	},
 	"C01": {
 		Level:     "exploration",
@@ -149,5 +149,21 @@ var plans = map[string]*Plan{
 		Rule:        "Scenario sysfault: the real stack over simnet with swarm configuration (every strategy; breaker, limiter, passive/active checks, plugins each on or off; read/write/backend_dial/backend_read timeouts 1-10s) and a drawn fault sequence of length 2-6 (thorough 2-12) over {refuse, dial black-hole, hang-headers, reset-after-headers, short-body, garbage, 5xx, slow-body, stall-after-headers, client-abort-upload, client-abort-download}, sequential and overlapping (1-3 clients); oracle: no panic, every request ends within read+write+backend_dial+backend_read+1s, after faults stop a recovery request is served normally.",
 		Real:        sysReal, Stub: sysStub, Assumptions: commonAssumptions,
 		ExpectProbes: []string{"recovered", "clean-exchange-ok"},
+	},
+	"C14": {
+		Level:     "exploration",
+		Scenarios: []ScenPlan{{"sysplug", 12000, 250000}},
+		QuickWallS: 150, ThoroughWallS: 1700,
+		Rule:        "Scenario sysplug with size_limit in a drawn chain position (optionally with gzip/logging): limits 1-4096 drawn small; request bodies limit-1/limit/limit+1/3x in declared and chunked framing; response bodies likewise, split into writes by the script and fragmented by the network; statuses incl. bodiless (HEAD, 204, 304, 302, empty 4xx/5xx); oracle: backend-received body <= limit, declared oversize => 413 without backend contact, client-received body <= limit, 413 when the first write already exceeds, within limits the C01 differential oracle.",
+		Real:        sysReal, Stub: sysStub, Assumptions: commonAssumptions,
+		ExpectProbes: []string{"request-over-limit-declared", "request-over-limit-chunked", "request-exactly-at-limit", "response-over-limit", "response-exactly-at-limit"},
+	},
+	"C15": {
+		Level:     "exploration",
+		Scenarios: []ScenPlan{{"sysplug", 12000, 250000}},
+		QuickWallS: 150, ThoroughWallS: 1700,
+		Rule:        "Scenario sysplug with gzip in a drawn chain position (optionally with size_limit/logging): Accept-Encoding spellings, content types in/outside the configured prefixes, sizes around min_size, compressible/incompressible payloads, pre-encoded backend responses (gzip, br), levels -1..9, bodiless statuses; oracle: decode the client's bytes by the Content-Encoding/Content-Length it received == backend body, status equal, compressed only if eligible, otherwise byte-identical (C01 oracle). The 10MB buffering cap is not exercised in the quick tier.",
+		Real:        sysReal, Stub: sysStub, Assumptions: commonAssumptions,
+		ExpectProbes: []string{"compressed"},
 	},
 }
